@@ -8,13 +8,16 @@ THEOREMS = ['C17_derives_rename', 'C17_trees_rename', 'C17_trees_are_derivations
             'C17_mangle_injective_or_error', 'C17_mangle_collision_only_by_alias', 'C17_mangle_prefix_disjoint',
             'C17_remove_unused_is_reachability', 'C17_do_import', 'C17_import_is_inlining_partial', 'C17_no_capture',
             'C17_import_clash_is_error', 'C17_extend_is_alternative', 'C17_extend_keeps_alternatives',
+            'C17_extend_term_in_place', 'C17_override_term_fresh_object', 'C17_extend_terminal_is_seen',
+            'C17_override_terminal_refuted',
             'C17_override_replaces', 'C17_template_is_substitution', 'C17_subst_no_capture',
             'C17_instance_name_injective', 'C17_template_label_renamed', 'C17_example',
             'C17_template_label_example']
 GEN_DEPS = []
 RULE = ('random programs of 1-3 module files (plain / renamed / multi / nested %import, %override, %extend, templates with '
         'symbol, literal and nested-template arguments, same-named private rules and terminals in every module, '
-        '%declare, %ignore, and a controlled rate of erroneous programs) written under ctx.scratch; (a) the '
+        '%extend / %override of imported terminals that other imported terminals are built from (by name, as '
+        'dependency, through a nested module), %declare, %ignore, and a controlled rate of erroneous programs) written under ctx.scratch; (a) the '
         'GrammarBuilder._definitions after load_grammar+validate against Mod/Modules.load_and_validate on the '
         'statement trees lark parsed from the same files, every ApplyTemplates.template_usage call against '
         'template_usage_step, _get_mangle against mangle; (b) parse of the modular grammar against the hand-inlined '
@@ -27,8 +30,10 @@ TRUSTED_BASE = ['hand model Mod/Modules.v of GrammarBuilder / _get_mangle / reso
                 'starts from the statement trees lark itself produced',
                 'file search (import_paths, base_path, stdlib loader) is not modelled: modules are found by dotted path',
                 'python reference inliner in harness/props/C17.py (the "by hand" grammar of the differential)']
-ASSUMPTIONS = ['term trees are compared with copying semantics: a terminal that another imported terminal references is '
-               'not overridden/extended from another module in the main streams (exotic stream covers it)',
+ASSUMPTIONS = ['the trees of terminal definitions are modelled as shared heap objects (resolve_term_references inserts the '
+               'referenced object; %extend changes it in place; %override makes a new one); programs that %override a '
+               'terminal other imported terminals are built from (finding F35) are compared at the definitions level but '
+               'kept out of the parse differential',
                'names are non-empty; rule/terminal names do not contain "{", "}" or ","']
 ALLOWED_AXIOMS = []
 
@@ -547,7 +552,7 @@ class Letters:
 
 def gen_term_body(rng, letters, earlier):
     r = rng.random()
-    if earlier and r < 0.3:
+    if earlier and r < 0.4:
         return [([('lit', letters.take()), ('sym', rng.choice(earlier))], None)]
     if r < 0.5:
         return [([('lit', letters.take())], None), ([('lit', letters.take())], None)]
@@ -622,7 +627,7 @@ def gen_module(rng, letters, imported_rules, imported_terms, imported_templates,
     for tn in rng.sample(TERM_NAMES, rng.randint(1, 3)):
         if tn in imported_terms:
             continue
-        stmts.append(('term', tn, None if rng.random() < 0.9 else 2, gen_term_body(rng, letters, [t for t in terms])))
+        stmts.append(('term', tn, None if rng.random() < 0.9 else 2, gen_term_body(rng, letters, terms + list(imported_terms))))
         terms.append(tn)
     allterms = terms + list(imported_terms)
     templates = dict(imported_templates)
@@ -670,15 +675,18 @@ def gen_program(rng, wild=False):
     for mn in order:
         imp_stmts, irules, iterms, itempl = [], [], [], {}
         if shape == 'nested' and mn == 'n':
-            imp_stmts, irules, iterms, itempl = gen_imports(rng, 'm', exports['m'], info, {})
+            imp_stmts, irules, iterms, itempl = gen_imports(rng, 'm', exports['m'], info, {}, 'n')
         body, rn, tn, tpl = gen_module(rng, letters, irules, iterms, itempl, False)
         prog[(mn,)] = imp_stmts + body
+        if iterms and rng.random() < 0.4:
+            # the nested module extends / overrides a terminal it imported
+            add_term_modifier(rng, prog[(mn,)], iterms, mn, letters, info, prog)
         exports[mn] = dict(rules=rn + [r for r in irules if rng.random() < 0.5], terms=tn, templates={t: (1 if t == 'f' else 2) for t in tpl},
-                           stmts=prog[(mn,)])
+                           stmts=prog[(mn,)], term_deps=term_deps(prog[(mn,)]))
     imp_stmts, irules, iterms, itempl = [], [], [], {}
     taken = {}
     for mn in (order if shape != 'nested' else (['n', 'm'] if rng.random() < 0.5 else ['n'])):
-        s, r, t, tp = gen_imports(rng, mn, exports[mn], info, taken)
+        s, r, t, tp = gen_imports(rng, mn, exports[mn], info, taken, 'main')
         imp_stmts += s
         irules += r
         iterms += t
@@ -690,10 +698,12 @@ def gen_program(rng, wild=False):
         t = rng.choice(sorted(itempl))
         start_alts.append(([('tmpl', t, [('sym', rng.choice(iterms + tn)) if (iterms + tn) else ('lit', '1') for _ in range(itempl[t])])], None))
         info['features'].add('imported-template-used-at-top')
+    if iterms and rng.random() < 0.35:
+        # imported terminals also occur directly in the start rule
+        start_alts.append(([('sym', x) for x in rng.sample(iterms, min(len(iterms), rng.randint(1, 2)))], None))
     main = imp_stmts + [('rule', '', 'start', [], None, start_alts)] + body
     # %override / %extend of imported rules and terminals (by their final names)
     cands = [r for r in irules if not any(r == t for t in itempl)]
-    term_cands = list(iterms)
     if cands and rng.random() < 0.35:
         r = rng.choice(cands)
         main.append(('extend', ('rule', '', r, [], None, [([('lit', '=')] + gen_seq(rng, [], iterms + tn, {}, [], True), None)])))
@@ -702,12 +712,9 @@ def gen_program(rng, wild=False):
         r = rng.choice(cands)
         main.append(('override', ('rule', '', r, [], None, [(gen_seq(rng, [x for x in rn], iterms + tn, {}, [], False) + [('lit', ';')], None)])))
         info['features'].add('override-rule')
-    if term_cands and rng.random() < 0.2:
-        t = rng.choice(term_cands)
-        if not term_is_referenced(prog, t):
-            kind = rng.choice(['extend', 'override'])
-            main.append((kind, ('term', t, None, [([('lit', letters.take())], None)])))
-            info['features'].add(kind + '-term')
+    based = [t for t in iterms if is_base(info, prog, 'main', t)]
+    if iterms and rng.random() < (0.65 if based else 0.2):
+        add_term_modifier(rng, main, iterms, 'main', letters, info, prog)
     if itempl and rng.random() < 0.15:
         t = rng.choice(sorted(itempl))
         ps = ['t'] if itempl[t] == 1 else ['t', 'u']
@@ -725,23 +732,48 @@ def gen_program(rng, wild=False):
     return prog, info
 
 
-def term_is_referenced(prog, t):
-    """conservative: some terminal of an importable module refers to another terminal"""
-    for path, stmts in prog.items():
-        if path == ('main',):
-            continue
-        for st in stmts:
-            if st[0] == 'term' and syms_alts(st[3], []):
-                return True
-    return False
+def term_deps(stmts):
+    """{terminal defined in this file: [terminals of this file that are built from it]}"""
+    deps = {}
+    for st in stmts:
+        if st[0] == 'term':
+            for s in syms_alts(st[3], []):
+                deps.setdefault(s, []).append(st[1])
+    return deps
 
 
-def gen_imports(rng, mn, exp, info, taken):
+def is_base(info, prog, importer, local):
+    """the terminal known as `local` in module `importer` is imported, and in its home module another terminal is
+    built from it"""
+    o = info.get('origin', {}).get((importer, local))
+    return bool(o) and bool(term_deps(prog[(o[0],)]).get(o[1]))
+
+
+def add_term_modifier(rng, stmts, iterms, importer, letters, info, prog):
+    """%extend (mostly) or %override of an imported terminal, preferably one that other imported terminals are built
+    from.  %extend changes the shared tree object in place and agrees with writing the definitions out by hand;
+    %override of such a terminal does not (finding F35): those programs stay in the definitions stream (the model
+    has the sharing) but are kept out of the parse differential"""
+    based = [t for t in iterms if is_base(info, prog, importer, t)]
+    t = rng.choice(based) if based and rng.random() < 0.8 else rng.choice(iterms)
+    kind = 'extend' if rng.random() < 0.8 else 'override'
+    stmts.append((kind, ('term', t, None, [([('lit', letters.take())], None)])))
+    info['features'].add(kind + '-term' + ('-shared' if t in based else ''))
+    if kind == 'override' and t in based:
+        info['skip_b'] = 'F35'
+
+
+def gen_imports(rng, mn, exp, info, taken, importer):
     """import statements for module mn; returns (stmts, rule names, term names, templates) as visible locally"""
     stmts, rules, terms, templates = [], [], [], {}
     pool = [('r', r) for r in exp['rules']] + [('t', t) for t in exp['terms']] + [('f', f) for f in exp['templates']]
     rng.shuffle(pool)
     pick = pool[:rng.randint(1, max(1, min(4, len(pool))))]
+    for kind, name in list(pick):
+        # a terminal that others are built from: often import one of those as well
+        deps = [('t', x) for x in exp.get('term_deps', {}).get(name, []) if x in exp['terms'] and ('t', x) not in pick]
+        if kind == 't' and deps and rng.random() < 0.6:
+            pick.append(rng.choice(deps))
     multi = []
     for kind, name in pick:
         local = name
@@ -763,6 +795,7 @@ def gen_imports(rng, mn, exp, info, taken):
             rules.append(local)
         elif kind == 't':
             terms.append(local)
+            info.setdefault('origin', {})[(importer, local)] = (mn, name)
         else:
             templates[local] = exp['templates'][name]
     if multi:
@@ -1109,6 +1142,24 @@ EXOTIC = [
          main='start: g{Y} f\nf: "q"\n%import m.f -> g\n%import m.Y\n',
          inlined='start: g{Y} f\nf: "q"\ng{t}: t t\nY: "y"\n',
          labels={}, text='yyq', parser='lalr'),
+    # regression: %extend of an imported terminal is seen by the imported terminals built from it (imported by
+    # name, or pulled in as a dependency of an imported rule; also through a nested import)
+    dict(key=None,
+         files={('units',): 'UNIT: "cm" | "mm"\nLENGTH: /\\d+/ UNIT\nlength: LENGTH\n'},
+         main='start: (LENGTH | UNIT)+\n%import units (LENGTH, UNIT)\n%extend UNIT: "km"\n%ignore " "\n',
+         inlined='start: (LENGTH | UNIT)+\nUNIT: "km" | "cm" | "mm"\nLENGTH: /\\d+/ UNIT\n%ignore " "\n',
+         labels={}, text='7mm 12km km', parser='lalr'),
+    dict(key=None,
+         files={('units',): 'UNIT: "cm" | "mm"\nLENGTH: /\\d+/ UNIT\nlength: LENGTH\n'},
+         main='start: (length | UNIT)+\n%import units (length, UNIT)\n%extend UNIT: "km"\n%ignore " "\n',
+         inlined='start: (length | UNIT)+\nUNIT: "km" | "cm" | "mm"\nUNITS__LENGTH: /\\d+/ UNIT\nlength: UNITS__LENGTH\n%ignore " "\n',
+         labels={'UNITS__LENGTH': 'units__LENGTH'}, text='12km km 3cm', parser='earley'),
+    dict(key=None,
+         files={('units',): 'UNIT: "cm" | "mm"\nLENGTH: /\\d+/ UNIT\n',
+                ('mid',): '%import units (LENGTH, UNIT)\n%extend UNIT: "km"\nsize: LENGTH "!"\n'},
+         main='start: size+\n%import mid.size\n',
+         inlined='start: size+\nMID__UNIT: "km" | "cm" | "mm"\nMID__LENGTH: /\\d+/ MID__UNIT\nsize: MID__LENGTH "!"\n',
+         labels={'MID__LENGTH': 'mid__LENGTH'}, text='12km!3cm!', parser='lalr'),
     # %override of an imported terminal does not reach the imported terminals that refer to it
     # (%extend does, and %override of a rule does)
     dict(key='C17-T2:override-of-imported-terminal-not-seen-by-dependent-terminal',
@@ -1223,7 +1274,11 @@ def correspond(ctx):
             if diamond:
                 ctx.histo.setdefault('feature', {})
                 ctx.histo['feature']['diamond-terminal(skipped in b)'] = ctx.histo['feature'].get('diamond-terminal(skipped in b)', 0) + 1
-        if spec_err is None and not diamond:
+        if spec_err is None and info.get('skip_b'):
+            ctx.histo.setdefault('feature', {})
+            k = 'override-of-shared-terminal %s (skipped in b)' % info['skip_b']
+            ctx.histo['feature'][k] = ctx.histo['feature'].get(k, 0) + 1
+        if spec_err is None and not diamond and not info.get('skip_b'):
             texts = gen_inputs(defs, ignore, rng, 3, 2, 1)
             for parser in ('lalr', 'earley'):
                 try:
